@@ -53,8 +53,17 @@ def make_device(d, rng):
     unsol = [(t, l) for t, l in d.pop("unsolicited", [])]
     kw = dict(latency=latf, chunker=chunker, swallow_first=d.pop("swallow_first", 0), silent_after_replies=d.pop("silent_after", None),
               eof_after_bytes=d.pop("eof_after_bytes", None), unsolicited=unsol, drop_at=d.pop("drop_at", None))
+    cut = d.pop("cut_reply", None)
     if typ == "recorded":
-        return devices.Recorded(d.pop("name"), **kw)
+        dev = devices.Recorded(d.pop("name"), **kw)
+        dev.cut_reply = cut
+        return dev
+    dev = _scripted(d, kw)
+    dev.cut_reply = cut
+    return dev
+
+
+def _scripted(d, kw):
     return devices.Scripted(table=d.pop("table", None), model=d.pop("model", "RX-V"), version=d.pop("version", "1.00/2.00"),
                             avail=d.pop("avail", {}), echo_put=d.pop("echo_put", True), **kw)
 
